@@ -456,7 +456,17 @@ fn run_case_in(d: &Domain, c: &CrashCase, phase: &str, obs: &mut Obs) -> Result<
                 std::fs::metadata(l).map(|m| format!("{:o}/{}B", m.permissions().mode() & 0o777, m.len())).unwrap_or_default()
             })
             .collect();
-        let left: Vec<String> = left.into_iter().chain(std::iter::once(format!("(phase {phase}; shm modes {modes:?})"))).collect();
+        // double crash: a cleaner that was killed inside the removal of the dead node's monitoring token
+        // (state file already unlinked, owner-lock and / or context file not yet) leaves those two files
+        // behind; without the state file no listing finds them again. That is a finding of its own and
+        // independent of whatever else stays: it is split off before the rest is classified.
+        let is_cleaner_remnant = |l: &String| l.starts_with("nodes/") && l.matches('/').count() == 1 && (l.ends_with(".node_monitor_context") || l.ends_with(".node_monitor_owner_lock"));
+        let cleaner_remnants: Vec<String> = if c.cleaner_n.is_some() && !left.iter().any(|l| l.ends_with(".node_monitor")) { left.iter().filter(|l| is_cleaner_remnant(l)).cloned().collect() } else { vec![] };
+        let left: Vec<String> = left.into_iter().filter(|l| !cleaner_remnants.contains(l)).collect();
+        if left.is_empty() {
+            fail!(SIG_CLEANER_DIED_IN_TOKEN_REMOVAL, "the cleaner was killed at its step {:?} while removing the dead node's monitoring token; the files it had not yet unlinked stay for ever (no state file, so no listing finds the node again): {cleaner_remnants:?}", c.cleaner_n);
+        }
+        let left: Vec<String> = left.into_iter().chain(std::iter::once(format!("(phase {phase}; shm modes {modes:?}; split off: {cleaner_remnants:?})"))).collect();
         let left = &left[..];
         let left_files = &left[..left.len() - 1];
         if only_unlisted_node_remnants(left_files) {
@@ -532,6 +542,8 @@ fn atomic_count(scenario: &str) -> Result<u64, String> {
     r
 }
 
+const SIG_CLEANER_DIED_IN_TOKEN_REMOVAL: &str = "leftover.cleaner_died_while_removing_monitor_token";
+
 fn exec(ctx: &mut Ctx, part: &str, c: &CrashCase) {
     let (mut obs, mut r) = Ctx::forked(std::time::Duration::from_secs(90), "survivor.hang", |obs| run_case(c, obs));
     if matches!(&r, Err(f) if f.signature.starts_with("survivor.hang")) {
@@ -552,7 +564,11 @@ fn exec(ctx: &mut Ctx, part: &str, c: &CrashCase) {
             return;
         }
         if f.signature.starts_with("harness.") {
-            ctx.inconclusive(format!("{}: {}", f.signature, f.message));
+            // a tracing hiccup decides nothing about the property: the case is discarded and counted
+            // (more than 1 % discarded cases make the run inconclusive)
+            ctx.class("case_discarded_harness_problem", 1);
+            ctx.note(format!("discarded: {}: {} (first such case: {})", f.signature, f.message, serde_json::to_string(c).unwrap_or_default()));
+            ctx.count_discarded();
             return;
         }
         ctx.violation(part, &f, serde_json::to_value(c).unwrap());
